@@ -47,6 +47,8 @@ pub struct ClusterSpec {
 #[derive(Clone, Debug)]
 pub struct NodeSpec {
     pub endpoints: Vec<(u16, Vec<ClusterSpec>)>,
+    /// events in the node's queue before the request: (endpoint, cluster, event id, payload bytes)
+    pub events: Vec<(u16, u32, u32, usize)>,
 }
 
 pub struct Gen {
@@ -117,7 +119,11 @@ pub fn build_node(spec: &NodeSpec) -> Node<'static> {
         let clusters: Vec<Cluster<'static>> = cls.iter().map(|c| {
             let attrs: &'static [Attribute] = Box::leak(c.attrs.iter().map(|a| Attribute::new(a.id, a.access, if a.list.is_some() { Quality::A } else { Quality::NONE })).collect::<Vec<_>>().into_boxed_slice());
             let cmds: &'static [Command] = Box::leak(c.cmds.iter().map(|(id, acc)| Command::new(*id, None, *acc)).collect::<Vec<_>>().into_boxed_slice());
-            Cluster::new(c.id, 1, 0, attrs, cmds, &[], |_, _, _| true, |_, _, _| true, |_, _, _| true)
+            let mut evids: Vec<u32> = spec.events.iter().filter(|e| e.0 == *eid && e.1 == c.id).map(|e| e.2).collect();
+            evids.sort();
+            evids.dedup();
+            let evs: &'static [rs_matter::dm::Event] = Box::leak(evids.iter().map(|id| rs_matter::dm::Event::new(*id, Access::RV)).collect::<Vec<_>>().into_boxed_slice());
+            Cluster::new(c.id, 1, 0, attrs, cmds, evs, |_, _, _| true, |_, _, _| true, |_, _, _| true)
         }).collect();
         let clusters: &'static [Cluster<'static>] = Box::leak(clusters.into_boxed_slice());
         Endpoint::new(*eid, &[], clusters)
@@ -131,8 +137,8 @@ pub struct Req {
     /// (endpoint, cluster, leaf): None = wildcard
     pub paths: Vec<(Option<u16>, Option<u32>, Option<u32>)>,
     pub timed: bool,
-    /// reads: also ask for the events of the first path's cluster (the node has none to report)
-    pub events: bool,
+    /// reads: event paths asked for besides the attribute paths
+    pub ev_paths: Vec<(Option<u16>, Option<u32>, Option<u32>)>,
 }
 
 pub struct Outcome {
@@ -162,13 +168,17 @@ pub fn run_request(spec: &NodeSpec, acl: &[AclEntry], pase: bool, req: &Req, max
     });
     let crypto = test_only_crypto();
     let buffers: MatterBuffers = MatterBuffers::new();
-    let state: InteractionModelState<DummyNetworks, 3, 1024> = InteractionModelState::new(DummyNetworks);
+    let state: InteractionModelState<DummyNetworks, 3, 8192> = InteractionModelState::new(DummyNetworks);
     state.suppress_start_up_event();
     let gen = Gen { spec: spec.clone(), log: RefCell::new(Vec::new()) };
     let node = build_node(spec);
     let kv = dev.kv(DummyKvBlobStore);
     let dm = InteractionModel::new(&dev, &crypto, &buffers, (node, Async(&gen)), &kv, &state);
     let responder = Responder::new_default(&dm);
+    for (k, (ep, cl, id, size)) in spec.events.iter().enumerate() {
+        let payload = fill(*id, k, *size);
+        state.events().push(*ep, *cl, *id, rs_matter::im::EventPriority::Info, &kv, |mut w| w.str(&rs_matter::im::events::EVENT_DATA_TAG, &payload)).unwrap();
+    }
     let items: RefCell<Vec<Value>> = RefCell::new(Vec::new());
     let chunks: RefCell<Vec<Value>> = RefCell::new(Vec::new());
     let error: RefCell<String> = RefCell::new(String::new());
@@ -186,8 +196,8 @@ pub fn run_request(spec: &NodeSpec, acl: &[AclEntry], pase: bool, req: &Req, max
                     let mut chunk = loop {
                         match sender.tx().await? {
                             TxOutcome::BuildRequest(b) => {
-                                sender = if req.events {
-                                    let ev = [rs_matter::im::EventPath::from_gp(&gp(&req.paths[0]))];
+                                sender = if !req.ev_paths.is_empty() {
+                                    let ev: Vec<rs_matter::im::EventPath> = req.ev_paths.iter().map(|p| rs_matter::im::EventPath::from_gp(&gp(p))).collect();
                                     b.attr_requests_from(&paths)?.event_requests_from(&ev)?.fabric_filtered(false)?.end()?
                                 } else {
                                     b.attr_requests_from(&paths)?.fabric_filtered(false)?.end()?
@@ -222,6 +232,17 @@ pub fn run_request(spec: &NodeSpec, acl: &[AclEntry], pase: bool, req: &Req, max
                                         }
                                         Ok(AttrResp::Status(st)) => items.borrow_mut().push(json!({"k": "status", "chunk": chunk_no, "ep": st.path.endpoint, "cl": st.path.cluster, "leaf": st.path.attr, "status": format!("{:?}", st.status.status)})),
                                         Err(e) => { malformed = format!("{:?}", e.code()); break; }
+                                    }
+                                }
+                            }
+                            if let Some(reports) = &resp.event_reports {
+                                for e in reports.iter() {
+                                    n += 1;
+                                    match e {
+                                        Ok(rs_matter::im::EventResp::Data(d)) => items.borrow_mut().push(json!({"k": "ev", "chunk": chunk_no, "ep": d.path.endpoint, "cl": d.path.cluster, "leaf": d.path.event,
+                                            "len": d.data.str().map(|s| s.len() as i64).unwrap_or(-2), "no": d.event_number})),
+                                        Ok(rs_matter::im::EventResp::Status(st)) => items.borrow_mut().push(json!({"k": "evstatus", "chunk": chunk_no, "ep": st.path.endpoint, "cl": st.path.cluster, "leaf": st.path.event, "status": format!("{:?}", st.status.status)})),
+                                        Err(e) => { malformed = format!("events: {:?}", e.code()); break; }
                                     }
                                 }
                             }
